@@ -65,7 +65,7 @@ func c05Judge(c *core.Ctx, b []byte, what string, corruption bool) {
 	if h := gen.HashBytes(b); h%5 == 0 && len(rm.TLVs) > 0 && len(rm.TLVs) <= 64 {
 		// earlier ordinary use of the decoded message: an attribute walk whose callback fails or panics (recovered by
 		// the caller, as net/http-style servers do). The message bytes did not change, so neither does the verdict.
-		pick := rm.TLVs[int(h>>8)%len(rm.TLVs)].Type
+		pick := rm.TLVs[int((h>>8)%uint64(len(rm.TLVs)))].Type
 		if pick == 0x8020 {
 			pick = 0x0020
 		}
@@ -82,8 +82,8 @@ func c05Judge(c *core.Ctx, b []byte, what string, corruption bool) {
 	} else if h%5 == 1 {
 		// ... or a read that delivered nothing (an expired deadline, a closed pipe) since the message was decoded
 		errs := []error{io.EOF, io.ErrUnexpectedEOF, io.ErrClosedPipe, errors.New("i/o timeout")}
-		_, _ = m.ReadFrom(&scriptedReader{mode: 3 - int(h>>8)%2, data: nil})
-		_, _ = m.ReadFrom(failingReader{errs[int(h>>9)%len(errs)]})
+		_, _ = m.ReadFrom(&scriptedReader{mode: 3 - int((h>>8)%2), data: nil})
+		_, _ = m.ReadFrom(failingReader{errs[int((h>>9)%uint64(len(errs)))]})
 		c.Count("checks_after_failed_reads", 1)
 	}
 	before := viewOf(m)
